@@ -63,6 +63,17 @@ CLAIMED.update({
         note="Sampling of interleavings, not enumeration. Pre-emption is at operation boundaries and at line granularity inside local.py; bytecode-level races are out of reach.",
         technique="deterministic simulation: seeded interleavings of contexts/threads/tasks (baton scheduler, line-level pre-emption, virtual-time event loop) against a per-context reference model",
     ),
+    "C19": dict(
+        category="exploration",
+        text="The real WSGIRequestHandler (make_environ / run_wsgi, DechunkedInput; stdlib BaseHTTPRequestHandler and BufferedReader under it) runs synchronously on an in-process "
+        "simulated socket: a client script (request line forms, header sets, Content-Length or generated chunked framing, Expect: 100-continue gating) is delivered in tape-chosen "
+        "fragments through a BufferedReader of swarm-chosen size; the client may hang up mid-body, send malformed chunk framing (truncated, negative, non-hex, lenient int() syntax, "
+        "missing terminator, oversize, unterminated header) or reset while the response is sent; an application actor reads with a generated pattern and answers from a generated "
+        "response spec (iterable / write() / mixed). Conservation oracles both ways against an independent strict response parser and de-chunker; DechunkedInput is also driven directly.",
+        design_ref="3.11",
+        note="The socket pair, selector and server object are fakes (kernel buffering, TLS, the accept loop and threading/forking mix-ins are not simulated). Server/Date header values come from the stdlib and are not compared.",
+        technique="deterministic simulation: real request handler on a simulated socket with fragmenting / hanging-up / resetting client and generated application, conservation oracles",
+    ),
 })
 
 NOT_APPLICABLE = {
